@@ -225,6 +225,17 @@ impl World {
 		let chain: Vec<(bitcoin::Block, u32)> = old.blocks.lock().unwrap().clone();
 		for m in mons.iter() {
 			let from = m.current_best_block().height;
+			// A monitor fed through the Confirm interface can have been written between `best_block_updated`
+			// and the `transactions_confirmed` calls belonging to the same (or, when blocks are skipped, earlier)
+			// blocks. A Confirm client re-checks everything it watches on start-up, whatever the height: the
+			// transactions of the blocks the monitor already counts as connected are confirmed to it again
+			// (redundant notifications are allowed by the Confirm contract).
+			for (blk, h) in chain.iter() {
+				if *h <= from && *h > 0 && !blk.txdata.is_empty() {
+					let txdata: Vec<(usize, &bitcoin::Transaction)> = blk.txdata.iter().enumerate().collect();
+					m.transactions_confirmed(&blk.header, &txdata, *h, tx_broadcaster, fee_estimator, logger);
+				}
+			}
 			for (blk, h) in chain.iter() {
 				if *h > from {
 					let txdata: Vec<(usize, &bitcoin::Transaction)> = blk.txdata.iter().enumerate().collect();
